@@ -327,43 +327,6 @@ fn epf_support(iters: u32) -> i64 {
     match iters { 0 => 0, 1 => 2, 2 => 3, _ => 6 }
 }
 
-fn pad_color_region_for(cf: u32, ec: &[(u32, u32)]) {
-    let (img, mut fh) = upsampling_headers(cf, ec);
-    let iters: u32 = kani::any();
-    kani::assume(iters <= 3); // u(2); 0 = disabled
-    fh.restoration_filter.epf = if iters == 0 {
-        EdgePreservingFilter::Disabled
-    } else {
-        EdgePreservingFilter::Enabled(EpfParams { iters, ..Default::default() })
-    };
-    let gab: bool = kani::any();
-    fh.restoration_filter.gab = if gab { jxl_frame::filter::Gabor::Enabled([[0.115169525, 0.061248592]; 3]) } else { jxl_frame::filter::Gabor::Disabled };
-    fh.do_ycbcr = kani::any();
-    let (r1, r2) = any_nested_frame_regions();
-    let p1 = pad_color_region(&img, &fh, r1);
-    let p2 = pad_color_region(&img, &fh, r2);
-    // the request at colour-sample resolution, grown by the support of every enabled stage
-    let need = upsampling_support(cf) + epf_support(iters) + gab as i64 + fh.do_ycbcr as i64;
-    let (cl, cr, ct, cb) = (floor_shift(l(r1), cf), ceil_shift(rt(r1), cf), floor_shift(t(r1), cf), ceil_shift(bt(r1), cf));
-    assert!(extent_covers(p1, cl - need, ct - need, cr + need, cb + need),
-        "[C06] pad_color_region >= request at colour resolution + upsampling(2) + EPF(2/3/6 for 1/2/3 iterations) + Gabor(1) + chroma upsampling(1) on every side");
-    if iters != 0 {
-        assert!(l(p1) & 7 == 0 && t(p1) & 7 == 0 && p1.width & 7 == 0 && p1.height & 7 == 0, "[C06] with EPF the colour region is made of whole 8x8 blocks (sigma is per block)");
-    }
-    if fh.do_ycbcr {
-        assert!(l(p1) & 1 == 0 && t(p1) & 1 == 0 && p1.width & 1 == 0 && p1.height & 1 == 0, "[C06] with chroma subsampling the colour region is even-aligned");
-    }
-    if iters == 0 && !gab && !fh.do_ycbcr && cf == 0 && ec.iter().all(|&(u, d)| u + d == 0) {
-        assert!(p1 == r1, "[C06] pad_color_region: no upsampling, no filter => the request itself");
-    }
-    assert!(covers(p2, p1), "[C06] pad_color_region is monotone");
-    kani::cover!(iters == 3 && gab && !fh.do_ycbcr && !r1.is_empty() && l(r1) < 0);
-    kani::cover!(iters == 0 && !gab && fh.do_ycbcr);
-    kani::cover!(iters == 0 && !gab && !fh.do_ycbcr);
-    kani::cover!(iters == 2 && r1 != r2);
-    kani::cover!(iters == 1);
-}
-
 /// restoration filter / chroma settings: every value the parsers can return (epf iters u(2), 0 = disabled)
 fn any_filters(fh: &mut FrameHeader) -> (u32, bool) {
     let iters: u32 = kani::any();
